@@ -580,6 +580,11 @@ def _advertised_mentions_uncached(F, imp, getter):
             base, path = e[1], e[2]
             if selfp is not None and base == ("param", selfp) and all(x[0] == "f" for x in path):
                 fields.add(tuple(x[1] for x in path))
+            elif base[0] == "multi" and len(base) > 1 and path and path[0][0] == "f":
+                # component of a tuple assigned in several branches
+                defs = b.tuple_field_defs(base[1], path[0][1])
+                for (dbi, op) in defs or []:
+                    scan_expr(b, b.expr(op, rich=True), selfp, depth + 1)
             return
         if k == "multi":
             for (bi, si, n) in b.whole_defs(e[1]):
